@@ -536,6 +536,9 @@ def dcm2quat(R: np.ndarray) -> np.ndarray:
         raise ValueError('Input is not a square matrix')
     if R.shape[0] != 3:
         raise ValueError('Input needs to be a 3x3 array or matrix')
+    if R.trace() <= 0.0:
+        # The scalar part is too small (zero for half-turns) to divide by it.
+        return shepperd(R.T)
     q = np.array([1., 0., 0., 0.])
     q[0] = 0.5*np.sqrt(1.0 + R.trace())
     q[1] = (R[1, 2] - R[2, 1]) / q[0]
